@@ -2,6 +2,7 @@ SPECIFICATION Spec
 CONSTANTS
   MaxTargets = 2
   MapOrder = "hashed"
+  Memo = "none"
   OtherTraits = {{}}
 INVARIANTS Deterministic
 CHECK_DEADLOCK FALSE
